@@ -190,7 +190,7 @@ def run(ctx):
     ctx.check(okw, 'R2', 'DijkstraZone::get_local_route walks v = dst; v != src; v = pred[v]', where(dj), '', key='R2|DijkstraZone::get_local_route|walk')
 
     # ---- R3 Dijkstra relaxation ------------------------------------------------------------------------------------------------------------------------
-    ctx.rule('R3', 'Dijkstra relaxes only through the minimum of a min-ordered queue, with edge cost = number of links of the declared route (same cost as Floyd)', 3)
+    ctx.rule('R3', 'Dijkstra relaxes only through the minimum of a min-ordered queue, with edge cost = number of links of the declared route (same cost as Floyd); cost, predecessor and queue entry are written together; the table is cached under its source', 5)
     okq = False
     for el in dj['elems']:
         x = el['x']
@@ -219,6 +219,35 @@ def run(ctx):
         if okr:
             break
     ctx.check(okr, 'R3', 'relaxation: if (cost(v,u) + cost[v] < cost[u]) cost[u] = that sum', where(dj), '', key='R3|DijkstraZone|relaxation')
+    # co-update: a relaxed node gets its new cost, its predecessor (the node just popped) and a new queue entry carrying the new cost, on the same path
+    co = None
+    for p in v.paths(max_visits=2):
+        evs = v.path_events(p)
+        for i, x in enumerate(evs):
+            sl = strict_lt(x) if x.kind == 'branch' else None
+            if not (sl and sl[0][0] == 'bin' and sl[0][1] == '+' and 'cost_arr' in repr(x.atom)):
+                continue
+            tgt = sl[1]
+            uidx = tgt[2] if tgt[0] == 'idx' else (tgt[3][0] if tgt[0] == 'call' and tgt[3] else None)
+            nxt = evs[i + 1:i + 14]
+            preds = [y for y in nxt if y.kind == 'assign' and 'pred_arr' in repr(y.lhs) and uidx is not None and ex.mentions(y.lhs, uidx)]
+            pushes = [y for y in nxt if y.kind == 'call' and y.q.rsplit('::', 1)[-1] in ('emplace', 'push') and 'pqueue' in repr(y.obj) and uidx is not None and any(ex.mentions(a, uidx) for a in y.args)]
+            good = len(preds) == 1 and len(pushes) == 1
+            co = good if co is None else (co and good)
+    ctx.check(bool(co), 'R3', 'relaxation co-update: cost[u], pred[u] and a queue entry for u are written together', where(dj),
+              'a relaxed node without predecessor keeps a stale route; without a new queue entry it is settled at its old (larger) priority' if not co else '', key='R3|DijkstraZone|relaxation co-update')
+    # the predecessor table is cached under the node it was computed from
+    keyok = None
+    for eid_ in range(len(dj['elems'])):
+        for x in v.events_of(eid_):
+            if x.kind == 'call' and x.q.rsplit('::', 1)[-1] in ('try_emplace', 'emplace', 'operator[]', 'find') and x.obj is not None and 'route_cache_' in repr(x.obj) and x.args:
+                k = strip(x.args[0])
+                if k[0] == 'var':
+                    ds = [y for e2 in range(len(dj['elems'])) for y in v.events_of(e2) if y.kind == 'assign' and y.lhs == k]
+                    k = strip(ds[0].rhs) if len(ds) == 1 else k
+                good = 'src' in repr(k) and 'dst' not in repr(k)
+                keyok = good if keyok is None else (keyok and good)
+    ctx.check(bool(keyok), 'R3', 'the predecessor table is cached under the source it was computed from', where(dj), '', key='R3|DijkstraZone|cache key')
     ctx.check(okc, 'R3', 'edge cost is the number of links of the declared route', where(dj), '', key='R3|DijkstraZone|edge cost')
     fa = P.fn(RT + 'FloydZone::add_route')
     v = A.view(fa)
